@@ -123,7 +123,7 @@ def cases(tier, seed, i, n):
         names = sorted(PROGRAMS)
         for r in range(30 if tier == 'quick' else 400):
             yield dict(pid='C12', prog=names[(r + i) % len(names)], mode='random', rseed=rnd.randrange(1 << 30), count=15,
-                       prob=rnd.choice((0.02, 0.05, 0.15, 0.4)))
+                       prob=rnd.choice((0.02, 0.05, 0.15, 0.4)), pct=[400, rnd.choice((2, 3, 4))] if r % 2 else None)
     return mine()
 
 
